@@ -99,7 +99,7 @@ func planC02(w *World, spec RunSpec) {
 	w.setupCommon(4)
 	w.drawFaultMix("err-before", "lost-response", "crash", "compaction", "duplicate")
 	w.Cfg.Ndist = 80 + s.Intn(400, "ndist")
-	w.Scenario = GenOS(w, OSProfile{MaxSets: 3, Delegation: true, Lifecycle: true, LateCreate: true})
+	w.Scenario = GenOS(w, OSProfile{MaxSets: 3, Delegation: true, Lifecycle: true, LateCreate: true, StampedManifests: true})
 	w.StartProcesses()
 	w.Disturb(w.Cfg.Ndist)
 	w.finish()
